@@ -6,6 +6,7 @@ RightContainer, Unique, FoundAgain, AutoNamesFresh, MergeIsUnionOtherWins),
 StylesTrace.tla (validation of replayed transitions and of random sequences on
 templates and sample documents with their real style populations)."""
 import io
+import json
 import random
 
 from harness import styles_lib as sl
@@ -23,6 +24,8 @@ def edge_event(e):
     other = sl.build(e["pre_other"])
     ev = {"op": o, "pre": sl.project(doc), "pre_other": sl.project(other)}
     if o["op"] == "insert":
+        o = dict(o, via=random.Random(json.dumps(e, sort_keys=True, default=str)).choice(["own", "own", "arg", "other"]))
+        ev["op"] = o
         tgt, oth = (doc, other) if o["d"] == "doc" else (other, doc)
         ev["pre"], ev["pre_other"] = sl.project(tgt), sl.project(oth)
         ev.update(sl.do_insert(tgt, o))
@@ -60,7 +63,7 @@ def rand_history(seed):
             std = fam in ("paragraph", "text", "table-cell", "table")
             mode = "auto-unnamed" if burst else rng.choice(["common", "auto-named", "auto-unnamed", "default"] if std else ["named", "named-default"])
             name = "" if mode in ("auto-unnamed", "default") else rng.choice(NAMES)
-            o = {"op": "insert", "d": "doc", "family": fam, "name": name,
+            o = {"op": "insert", "d": "doc", "family": fam, "name": name, "via": rng.choice(["own", "own", "arg", "other"]),
                  "automatic": mode in ("auto-named", "auto-unnamed"), "default": mode in ("default", "named-default") and (std or fam == "font-face")}
             ev["op"] = o
             ev.update(sl.do_insert(doc, o))
